@@ -9,12 +9,26 @@ from harness.props import common
 LEVEL = "proof"
 
 
-def classify(am, tid, hist_before):
+def classify(am, tid, hist_before, cfg=None):
     """Narrow signature of an illegal configuration produced by transition tid (for known findings)."""
+    # an ACTIVE history pseudo-state that got there as somebody's `initial` child (F35) or as the default target of
+    # another history pseudo-state (F36)
+    for x in (cfg or []):
+        n = am.nodes[x]
+        if n.kind.startswith("hist"):
+            if n.parent is not None and am.nodes[n.parent].initial == x:
+                return dict(kind="illegal-config", cause="initial-names-history-state")
+            if any(g.kind.startswith("hist") and g.hist_default == x for g in am.nodes):
+                return dict(kind="illegal-config", cause="history-default-is-history-state")
     ts = {t.tid: t for t in am.all_trans()}
     t = ts.get(tid)
     if t is None:
         return None
+    if isinstance(t.target, int) and am.nodes[t.target].kind.startswith("hist"):
+        g = am.nodes[t.target]
+        if g.hist_default is not None and g.parent not in hist_before and not (
+                g.hist_default != g.parent and am.is_desc(g.hist_default, g.parent)):
+            return dict(kind="illegal-config", cause="history-default-outside-parent")
     if t.target == 0:
         return dict(kind="illegal-config", cause="transition-targets-machine-root")
     if isinstance(t.target, int) and am.nodes[t.target].kind.startswith("hist"):
@@ -51,14 +65,14 @@ def monitor(am, engine, cx, events, snaps):
             if o[0] == "notify" and not am.legal(o[1]):
                 # the transition that caused it is the next 'trans' record (async: previous)
                 tid = next((x[1] for x in sn["log"][start + idx:] if x[0] == "trans"), None)
-                out.append(("illegal configuration %s seen by a subscriber" % o[1], classify(am, tid, prev_hist)))
+                out.append(("illegal configuration %s seen by a subscriber" % o[1], classify(am, tid, prev_hist, o[1])))
             if o[0] == "trans" and not am.legal(o[2]) and sn["status"] != 0:
                 out.append(("illegal configuration %s at on_transition(tid=%d)" % (o[2], o[1]),
-                            classify(am, o[1], prev_hist)))
+                            classify(am, o[1], prev_hist, o[2])))
         if sn["status"] in (1, 2) and not am.legal(sn["cfg"]):
             tid = next((x[1] for x in reversed(sn["log"]) if x[0] == "trans" and x[1] != 0), None)
             out.append(("illegal configuration %s when %s returned" % (sn["cfg"], "start()" if k == 0 else "send()"),
-                        classify(am, tid, prev_hist)))
+                        classify(am, tid, prev_hist, sn["cfg"])))
         prev_hist = sn["hist"]
     # one failure per run is enough
     return out[:1]
@@ -74,6 +88,9 @@ def families(tier, rng):
         fams.append(("random", common.random_family(rng, 1500, max_nodes=12), "1500 seeded random machines (<=12 nodes), 2 runs each"))
         fams.append(("faults", common.random_family(rng, 1000, max_nodes=10, features=dict(faults=True, badtarget=True)),
                      "1000 random machines with failing / missing actions, missing guards, unresolvable targets"))
+        fams.append(("hist_inside", common.history_inside_family(rng, 360),
+                     "360 machines whose compound / parallel state (also as machine root) has a shallow / deep history child targeted from "
+                     "INSIDE that state and from outside, after the regions moved (shape of former findings F34 / F21)"))
     else:
         c, n = common.directed_pair_family(rng, 3)
         fams.append(("pairs<=3", c, "every tree with <=3 nodes x every (source,target) pair (%d trees)" % n))
@@ -82,16 +99,59 @@ def families(tier, rng):
         fams.append(("random", common.random_family(rng, 260, max_nodes=10), "260 seeded random machines (<=10 nodes), 2 runs each"))
         fams.append(("faults", common.random_family(rng, 200, max_nodes=9, features=dict(faults=True, badtarget=True)),
                      "200 random machines with failing / missing actions, missing guards, unresolvable targets (aborted transitions, rollback)"))
+        fams.append(("hist_inside", common.history_inside_family(rng, 48),
+                     "48 machines whose compound / parallel state (also as machine root) has a shallow / deep history child targeted from "
+                     "INSIDE that state and from outside, after the regions moved (shape of former findings F34 / F21)"))
+    fams.append(("hist_misuse", common.history_misuse_family(),
+                 "machines outside the side conditions of the C01 theorems: `initial` naming a history pseudo-state, a history default "
+                 "target that is a history pseudo-state or lies outside the parent (recorded findings F35-F37)"))
     return fams
+
+
+def ancestry_side_conditions(machines):
+    """Tie T for _is_descendant (Proofs/IdP.v): the bridge theorem needs well-formed machines with distinct dotted-path
+    ids; evaluate that, in Coq, for the machines handed to the correspondence.  -> (number checked, disagreements)"""
+    import re
+    jobs = []
+    shard = 60
+    for j in range(0, len(machines), shard):
+        text = "From XSM Require Import Model.Cases Proofs.IdP.\nOpen Scope string_scope.\n"
+        idx = list(range(j, min(j + shard, len(machines))))
+        for i in idx:
+            text += "Definition m%d : machine := %s.\n" % (i, machines[i].to_coq())
+        text += "Eval vm_compute in %s.\n" % core.cl("(%d, ancestry_side_ok m%d)" % (i, i) for i in idx)
+        jobs.append(("c01_sideok_%03d" % (j // shard), text))
+    outs = core.coq_eval_many(jobs, par=14)
+    dis, n = [], 0
+    for jn, _ in jobs:
+        rc, out, _ = outs[jn]
+        if rc != 0:
+            dis.append(dict(component="T-ancestry (side condition)", case=None, impl=None, model="coqc failed: " + out[-500:]))
+            continue
+        body = re.sub(r"\s+", "", out[out.find("="):])
+        for si, b in re.findall(r"\((\d+),(true|false)\)", body):
+            n += 1
+            if b != "true":
+                dis.append(dict(component="T-ancestry (side condition)", case=dict(machine=machines[int(si)].to_config()), impl=None,
+                                model="ancestry_side_ok = false: ids are not distinct dotted paths, the bridge theorem does not apply"))
+    return n, dis
 
 
 def run(rep, ctx):
     rng = random.Random(ctx["seed"] * 7919 + 1)
     dis_all, fail_all = [], []
+    seen = []
     for name, cases, rule in families(ctx["tier"], rng):
         dis, fails, stats = common.run_macro_property(rep, ctx, "c01_" + name.replace("<=", "le"), cases, monitor, rule)
         dis_all += dis
         fail_all += fails
+        seen += [c[0] for c in cases]
+    n_side, d_side = ancestry_side_conditions(seen[:: max(1, len(seen) // 600)])
+    dis_all += d_side
+    rep.coverage.setdefault("components", {})["T-ancestry"] = dict(
+        machines_checked=n_side, side_condition_failures=len(d_side), source_status=ctx["build"]["gen"].get("GenTree") or "ok",
+        note="Gen/GenTree.v is re-translated from base_interpreter._is_descendant on every run; Proofs/IdP.v proves it equal to the "
+             "model's tree test for machines satisfying ancestry_side_ok, which is evaluated in Coq for these machines")
     rep.coverage["exhaustive"] = True
 
     def search(extra):
